@@ -1,6 +1,6 @@
 (** Pinned statements of the C01 property theorems: compiled on every check. *)
 From V Require Import Base.Util Gql.Ast Writer.Wop Ts.TsType Ts.TsDen
-     C01.Model C01.Spec C01.Corr C01.Witness C01.Refuted C01.Properties.
+     C01.Model C01.Spec C01.Corr C01.Witness C01.Refuted C01.TreeDen C01.EnvDen C01.Properties.
 
 Check (C01_exec_in_ref_local : forall S F cf sg fuel T sels v,
   exec_b S F cf sg fuel T sels v = true -> ref_local_b S F cf fuel T sels v = true).
@@ -10,3 +10,14 @@ Check (C01_merge_unsafe_refuted :
   exec_b w_schema [] 8 [(s "v", true)] 8 (s "Query") (sels_of w_merge) v_a_empty = true /\
   has_type_b (schema_env w_schema) 40 (type_of w_merge) v_a_empty = Some false).
 Print Assumptions C01_merge_unsafe_refuted.
+Check (C01_full_statement_refuted :
+  ~ C01_response_admitted w_schema w_merge (first_def w_merge) (type_of w_merge)).
+Print Assumptions C01_full_statement_refuted.
+Check (C01_emitted_type_denotes_tree : forall S t v,
+  leaves_ok (sp_leaf_ok S) (sp_obj_ok S) t = true ->
+  (In_type (schema_env S) (generate_selection_tree_type NS t) v
+   <-> tree_den (sp_named S) (sp_obj_keys S) t false v = true)).
+Print Assumptions C01_emitted_type_denotes_tree.
+Check (C01_has_type_fuel_monotone : forall E f f' t v b,
+  f <= f' -> has_type_b E f t v = Some b -> has_type_b E f' t v = Some b).
+Print Assumptions C01_has_type_fuel_monotone.
